@@ -190,6 +190,7 @@ package registry
 //@   ensures vars-non-nil: varsNonNil(m)
 //@   ensures{C01,C10,C11} variable-imports-cover-its-type: forall((*types.Package)(p), refs(vr.Type(), p) ==> dom(v.imports, canon(p)))
 //@   ensures{C10,C11} variable-imports-are-registry-entries: entriesHavePkg(v.imports)
+//@   ensures{C12} import-conflicts-resolved-on-every-path: existsEv(i, evIs(i, "call:registry.MethodScope.resolveImportVarConflicts") && evArg(i, 1) == v.imports)
 //@   ensures{C12} new-name-unique: forall(k, 0 <= k && k < len(m.vars) - 1 ==> m.vars[k].Name != v.Name)
 //@   ensures{C13} name-kept-unless-conflict: forallEv(i, evIs(i, "call:registry.varName") ==> evArg(i, 0) == vr && evArg(i, 1) == suffix && (v.Name == evRes(i)
 //@       || existsEv(q, evIs(q, "call:registry.Registry.searchImport") && evArg(q, 1) == evRes(i) && evRes(q, 1))
@@ -202,7 +203,8 @@ package registry
 //@   modifies H:registry.Var#.Name, M:string:bool#
 //@   requires m != nil && m.conflicted != nil && varsNonNil(m)
 //@   loop 1 invariant counter: ix >= 1
-//@   loop 1 assume-terminates the scope holds finitely many variables, so one of suggested1 ... suggested<len(vars)+1> is free and the loop returns by then (pigeonhole over the decimal renderings, which are pairwise different; not proved)
+//@   loop 1 increases ix
+//@   loop 1 assume-terminates the counter advances on every iteration (proved: loop1/progress); that it is bounded is assumed: the scope holds finitely many variables, so one of suggested1 ... suggested<len(vars)+1> is free and the loop returns by then (pigeonhole over the decimal renderings, which are pairwise different; not proved)
 //@   loop 1 invariant renamed-only: forall((*Var)(p), old(allocated(p)) ==> p.Name == old(p.Name) || (old(p.Name) == suggested && p.Name == suggested + "1"))
 //@   loop 1 invariant distinct-kept: (forall(i, j, 0 <= i && i < j && j < len(m.vars) ==> old(m.vars[i].Name) != old(m.vars[j].Name))) ==> forall(i, j, 0 <= i && i < j && j < len(m.vars) ==> m.vars[i].Name != m.vars[j].Name)
 //@   ensures not-taken: forall(k, 0 <= k && k < len(m.vars) ==> m.vars[k].Name != r)
@@ -247,7 +249,7 @@ package registry
 //@   axiom refs-interface: isType(t, *types.Interface) ==> forall((*types.Package)(p), refs(t, p) <==> (exists(k, 0 <= k && k < as(t, *types.Interface).NumExplicitMethods() && refs(as(t, *types.Interface).ExplicitMethod(k).Type(), p)) || exists(k, 0 <= k && k < as(t, *types.Interface).NumEmbeddeds() && refs(as(t, *types.Interface).EmbeddedType(k), p))))
 //@   axiom refs-closed-world: t != nil && !isType(t, *types.Named) && !isType(t, *types.Alias) && !isType(t, *types.Basic) && !isType(t, *types.Union) && !isType(t, *types.Array) && !isType(t, *types.Slice) && !isType(t, *types.Chan) && !isType(t, *types.Pointer) && !isType(t, *types.Map) && !isType(t, *types.Signature) && !isType(t, *types.Struct) && !isType(t, *types.Interface) ==> forall((*types.Package)(p), !refs(t, p))
 //@   axiom unsafe-package-path: global("go/types.Unsafe").Path() == "unsafe"
-//@   axiom strip-unsafe: strip("unsafe") == "unsafe" -- instance of stripVendorPath/post:no-vendor (verified, functional)
+//@   lemma strip-unsafe: strip("unsafe") == "unsafe" by registry.stripVendorPath("unsafe")
 //@   axiom refs-typeparam-tuple: (isType(t, *types.TypeParam) || isType(t, *types.Tuple)) ==> forall((*types.Package)(p), !refs(t, p))
 //@   loop 1 invariant inv: piInv(m, imports) && ix >= 0
 //@   loop 1 invariant {C01,C02,C10,C11} covered: (as(t, *types.Named).Obj().Pkg() != nil ==> cov(imports, as(t, *types.Named).Obj().Pkg())) && forall((*types.Package)(p), k, 0 <= k && k < ix && refs(as(t, *types.Named).TypeArgs().At(k), p) ==> cov(imports, p))
@@ -313,7 +315,7 @@ package registry
 //@   axiom basic-type-table: forall(k, 0 <= k && k < len(global("go/types.Typ")) ==> global("go/types.Typ")[k] != nil)
 //@   ensures{C13} user-name-kept: vr.Name() != "" && vr.Name() != "_" && !isReserved(vr.Name() + suffix) ==> s == vr.Name() + suffix
 //@   ensures{C12,C13} user-name-that-the-body-needs-is-suffixed: vr.Name() != "" && vr.Name() != "_" && isReserved(vr.Name() + suffix) ==> s == vr.Name() + suffix + "MoqParam"
-//@   ensures{C12} never-reserved: !isReserved(s)
+//@   ensures{C12,C04,C07} never-reserved: !isReserved(s)
 //@   ensures{C13} generated-from-type: (vr.Name() == "" || vr.Name() == "_") ==> s == ite(isReserved(nameOf(vr.Type()) + suffix), nameOf(vr.Type()) + suffix + "MoqParam", nameOf(vr.Type()) + suffix)
 
 //@ func registry.varNameForType -> s
